@@ -120,7 +120,7 @@ class Method(Variable):  # i.e. TypeBound procedure
                 link_obj = find_in_scope(self.parent, self.link_name, obj_tree)
             if link_obj is not None and not self.links_back(link_obj):
                 self.link_obj = link_obj
-                if self.pass_name is not None:
+                if self.pass_name is not None and hasattr(link_obj, "args_snip"):
                     self.pass_name = self.pass_name.lower()
                     for i, arg in enumerate(link_obj.args_snip.split(",")):
                         if arg.lower() == self.pass_name:
